@@ -18,13 +18,14 @@ def gen(rng, full):
     def highest(bits):
         return max((i for i, c in enumerate(bits) if c == "1"), default=len(bits))
 
-    # aimed: the live configuration over every shape of bitmap on small files
+    # aimed: the live configuration (thru host: verify "last", crc32c, no verify tail) and tail 1 over every shape of bitmap on small files
     for total in (1, 2, 3, 5, 8):
         shapes = {"1" * total, "0" * total, "1" * (total // 2) + "0" * (total - total // 2), "0" * (total // 2) + "1" * (total - total // 2),
                   "".join("1" if i % 2 == 0 else "0" for i in range(total)), "".join("1" if i % 3 == 1 else "0" for i in range(total))}
         for bits in sorted(shapes):
             for hsh in ("good", "bad", "unknown"):
-                add(total, 1, "last", "crc32c", bits, highest(bits), hsh, 1 + (k % 3))
+                for tail in (0, 1):
+                    add(total, tail, "last", "crc32c", bits, highest(bits), hsh, 1 + (k % 3))
     n = 260 if full else 70
     for _ in range(n):
         total = rng.choice([1, 2, 3, 4, 7, 8, 9, 12, 16, 17, 33])
@@ -84,6 +85,13 @@ def run(ctx, exe, prop):
         stats["all_sent"] += len(set(sent)) == c["chunks"]
         stats["some_skipped"] += 0 < len(set(sent)) < c["chunks"]
         stats["hash_unknown"] += c["hash"] == "unknown"
+    # model-independent oracle: with verification on, a last recorded chunk whose hash differs from the source's or could not be computed
+    # must travel (C06: "detects it by hash and repairs it")
+    for c, r in zip(cases, res):
+        if (r.get("sender_ok") and c["verify"] != "none" and c["hash_alg"] != "none" and c["hash"] in ("bad", "unknown", "zero")
+                and c["last"] < c["chunks"] and c["bits"][c["last"]:c["last"] + 1] == "1" and c["last"] not in (r.get("sent") or [])):
+            ctx.violation(f"{prop}:unverified-chunk-trusted", f"the last recorded chunk {c['last']} (hash {c['hash']}) did not travel although it could not be verified "
+                          f"(report bits {c['bits']}, tail {c['tail']}, verify {c['verify']!r}); the sender reported success", {"case": c, "result": r})
     ctx.oblige("correspondence:resume-plan", not diffs, "; ".join(f"{d[0]['name']}: {d[3]}" for d in diffs[:3]))
     for c, r, m, why in diffs[:5]:
         # a disagreement where a chunk the report does not mark travels nowhere is the property's failure itself
